@@ -14,7 +14,7 @@ RULE = (
     "pair): img(D1+D2) = img(D1)+img(D2), row order, zero-weight points, empty diagram -> zeros of "
     "`resolution`, alone vs inside a collection, birth-death+skew vs pre-converted, non-negative weights "
     "=> pixels >= 0 and total <= total weight. Schedules: transform(n_jobs=1..4) under a controlled "
-    "joblib backend with ALL completion orders of the queued batches (<= 4 diagrams -> 24 orders) plus "
+    "joblib backend: collections of 2-4 diagrams of different sizes in EVERY arrangement, ALL completion orders of the queued batches (24 for 4 diagrams) for the base arrangement and every single deviation for the others, plus "
     "free-running threading and loky runs; outputs must equal the serial result in input order. state = "
     "(configuration, diagrams) or (collection, n_jobs, completion order); transition = one transform "
     "call; non-trivial = two different points, or a completion order other than submission order."
@@ -110,7 +110,8 @@ def relations(case, ctx):
         ctx.outcome(np.round(single[0], 9).tolist())
 
 
-COLLECTION = [[[0.7, 1.9]], [[1.0, 2.0], [0.25, 2.25]], [[1.5, 1.75], [0.5, 1.0], [-0.5, 0.25]], [[1.99, 3.0]]]
+COLLECTION = [[[0.7, 1.9]], [[1.0, 2.0], [0.25, 2.25]], [[1.5, 1.75], [0.5, 1.0], [-0.5, 0.25]],
+              [[1.99, 3.0], [0.1, 0.6], [0.3, 2.9], [1.2, 1.4]]]
 _seam = JoblibSeam()
 
 
@@ -118,8 +119,15 @@ def schedules(case, ctx):
     weight = WEIGHTS[0]
     im = make(0, 0.5, case["kernel"], weight)
     nj = case["n_jobs"]
+    # collections of 2, 3, 4 diagrams of DIFFERENT sizes in EVERY arrangement (a dispatch order that
+    # depends on the diagrams, e.g. largest first, must still return results in input order)
+    arrangements = []
     for size in (2, 3, 4):
-        dg = [np.array(d, dtype=float) for d in COLLECTION[:size]]
+        for perm in itertools.permutations(range(size)):
+            arrangements.append([COLLECTION[i] for i in perm])
+    for coll in arrangements:
+        dg = [np.array(d, dtype=float) for d in coll]
+        size = len(dg)
         serial = ctx.call(im.transform, dg)
         with _seam.installed():
             before = _seam.completions
@@ -129,17 +137,19 @@ def schedules(case, ctx):
                 ctx.trans()
                 return im.transform(dg, n_jobs=nj)
 
-            for prefix, tr, out in explore(run, None, use_state_keys=False):
+            # all completion orders for the identity arrangement; default + reversed completion otherwise
+            full = coll == COLLECTION[:size]
+            for prefix, tr, out in explore(run, None if full else 1, use_state_keys=False):
                 order = [t[2] for t in tr]
-                ctx.state(("sched", case["kernel"], nj, size, order))
+                ctx.state(("sched", case["kernel"], nj, [len(d) for d in coll], order))
                 ctx.count("completion_orders_executed")
                 if any(order):
-                    ctx.nontriv("completion_order_differs_from_submission", key=("sched", case["kernel"], nj, size, order))
+                    ctx.nontriv("completion_order_differs_from_submission", key=("sched", case["kernel"], nj, [len(d) for d in coll], order))
                 ctx.valid()
                 ok = isinstance(out, list) and len(out) == len(serial) and all(np.array_equal(np.asarray(a), np.asarray(b)) for a, b in zip(out, serial))
                 if not ok:
                     ctx.violation("parallel-differs", "transform(n_jobs=%d) under completion order %r differs from the serial result" % (nj, order),
-                                  extra={"kernel": KERNELS[case["kernel"]], "collection_size": size, "order": order})
+                                  extra={"kernel": KERNELS[case["kernel"]], "diagram_sizes": [len(d) for d in coll], "order": order})
             if _seam.completions == before and nj > 1:
                 ctx.count("seam_unused")
         ctx.outcome(("sched", size, [np.round(np.asarray(s), 9).tolist() for s in serial][:1]))
